@@ -230,9 +230,9 @@ Section B2D.
 Variable N : nat.
 Hypothesis HN : 0 < N.
 
-(* the operand shapes the proof needs: a valid 2-d broadcast source of (R, C), and NOT (1,1) under R > 1 *)
+(* the operand shapes the proof needs: a valid 2-d broadcast source of (R, C) *)
 Definition valid_operand (R C : nat) (s : nat * nat) : Prop :=
-  (fst s = 1 \/ fst s = R) /\ (snd s = 1 \/ snd s = C) /\ ~ (fst s = 1 /\ snd s = 1 /\ 1 < R).
+  (fst s = 1 \/ fst s = R) /\ (snd s = 1 \/ snd s = C).
 
 Lemma bc2_cell_block C s r x : x < C -> bc2_cell C s (r * C + x) =
   (if fst s =? 1 then 0 else r) * snd s + (if snd s =? 1 then 0 else x).
@@ -243,36 +243,36 @@ Lemma operand_packed R C s r j t : 0 < R -> valid_operand R C s -> r < R -> j < 
    | PACKED => snd (b2d_operand N false r j C (fst s) (snd s)) + t
    | _ => snd (b2d_operand N false r j C (fst s) (snd s)) end) = bc2_cell C s (r * C + (j * N + t)).
 Proof.
-  intros HR [Hr [Hc Hn]] Hrr Hj Ht.
+  intros HR [Hr Hc] Hrr Hj Ht.
   assert (HjN : j * N + t < C).
   { pose proof (div_mul_le C N). nia. }
   rewrite bc2_cell_block by exact HjN.
   unfold b2d_operand. simpl andb. cbv iota.
-  destruct (Nat.eqb_spec (snd s) 1) as [E1|E1]; simpl.
-  - rewrite E1. destruct (Nat.eqb_spec (fst s) 1) as [F1|F1]; lia.
-  - destruct (Nat.eqb_spec (fst s) 1) as [F1|F1].
-    + rewrite F1. simpl. lia.
-    + replace (1 <? fst s) with true by (symmetry; apply Nat.ltb_lt; lia). lia.
+  destruct (Nat.eqb_spec (fst s) 1) as [F1|F1].
+  - rewrite F1. simpl Nat.ltb. cbv iota.
+    destruct (Nat.eqb_spec (snd s) 1) as [E1|E1]; simpl; lia.
+  - replace (1 <? fst s) with true by (symmetry; apply Nat.ltb_lt; lia).
+    destruct (Nat.eqb_spec (snd s) 1) as [E1|E1]; simpl; lia.
 Qed.
 
 Lemma operand_scalar R C s r t : 0 < R -> valid_operand R C s -> r < R -> t < C mod N ->
   snd (b2d_operand N true r (C / N + t) C (fst s) (snd s)) = bc2_cell C s (r * C + (C / N * N + t)).
 Proof.
-  intros HR [Hr [Hc Hn]] Hrr Ht.
+  intros HR [Hr Hc] Hrr Ht.
   assert (HC : C = C / N * N + C mod N) by (pose proof (Nat.div_mod C N ltac:(lia)); lia).
   rewrite bc2_cell_block by lia.
   unfold b2d_operand. simpl andb.
+  assert (Hg : (if 1 <? fst s then 1 else 0) = (if fst s =? 1 then 0 else 1)).
+  { destruct (Nat.ltb_spec 1 (fst s)); destruct (Nat.eqb_spec (fst s) 1); lia. }
+  rewrite Hg.
   destruct (Nat.eqb_spec (snd s) 1) as [E1|E1].
-  - (* offset is the row in both branches *)
-    assert (Hsnd : forall b : bool, snd (if b then (SCALAR, r) else (BROADCAST, r)) = r) by (intros []; reflexivity).
+  - (* the offset is row * (rows > 1) in both branches *)
     rewrite E1. simpl Nat.eqb. cbv iota.
-    destruct (1 / N <=? C / N + t); simpl; destruct (Nat.eqb_spec (fst s) 1) as [F1|F1]; lia.
+    destruct (1 / N <=? C / N + t); simpl; destruct (fst s =? 1); lia.
   - assert (Es : snd s = C) by lia.
     rewrite Es. replace (C / N <=? C / N + t) with true by (symmetry; apply Nat.leb_le; lia).
     simpl. destruct (Nat.eqb_spec C 1) as [C1|C1]; [lia|].
-    destruct (Nat.eqb_spec (fst s) 1) as [F1|F1].
-    + rewrite F1. simpl. lia.
-    + replace (1 <? fst s) with true by (symmetry; apply Nat.ltb_lt; lia). lia.
+    destruct (fst s =? 1); lia.
 Qed.
 
 Definition bcell (C : nat) (l r : nat * nat) (c : nat) : nat * nat * nat := (c, bc2_cell C l c, bc2_cell C r c).
@@ -494,8 +494,8 @@ Proof.
   pose proof (b2d_covers_once N R C l r HN HR HC Hl Hr Hmax) as Hcov.
   pose proof (run_b2d_steps A N HN f d lhs rhs (bcell C l r) (R * C)
                 (fun c => eq_refl)
-                (fun c Hc => ltac:(simpl; rewrite Hll; apply (bc2_cell_bound R C l c HR HC (proj1 Hl) (proj1 (proj2 Hl)) Hc)))
-                (fun c Hc => ltac:(simpl; rewrite Hlr; apply (bc2_cell_bound R C r c HR HC (proj1 Hr) (proj1 (proj2 Hr)) Hc)))
+                (fun c Hc => ltac:(simpl; rewrite Hll; apply (bc2_cell_bound R C l c HR HC (proj1 Hl) (proj2 Hl) Hc)))
+                (fun c Hc => ltac:(simpl; rewrite Hlr; apply (bc2_cell_bound R C r c HR HC (proj1 Hr) (proj2 Hr) Hc)))
                 (b2d_entries N (R, C) l r) 0 (R * C) out0 Hlo eq_refl Hcov) as Hrun.
   rewrite done_0 in Hrun. rewrite Hrun. f_equal. unfold done.
   rewrite firstn_all2 by (rewrite b2d_vals_length; lia). rewrite skipn_all2 by lia. rewrite app_nil_r.
@@ -580,7 +580,7 @@ Proof.
 Qed.
 
 (* accumulator started from [e]: the full reduction is the fold of all elements *)
-Theorem eval_reduce_full_eq (d : A) inp : eval_reduce_full N f e (length inp) inp = Some (msum inp).
+Theorem eval_reduce_full_eq (d z : A) inp : eval_reduce_full N f z e (length inp) inp = Some (msum inp).
 Proof.
   unfold eval_reduce_full.
   destruct (full_packed_spec (length inp) 0 inp (set1 N e) ltac:(lia) ltac:(unfold set1; apply repeat_length) ltac:(nia))
